@@ -36,9 +36,48 @@ func natTimeSince(fr *frame, fn *ssa.Function, args []value) value {
 		}
 		return v
 	}
-	return int64(0)
+	sec, nsec, ok := timeParts(args[0].(structure))
+	if !ok {
+		panic(engineAbort{"time.Since of a symbolic time under a concrete clock"})
+	}
+	return durationBetween(fixedNowSec+i.h.clockTicks, 0, sec, nsec)
+}
+
+// timeParts returns seconds since year 1 and nanoseconds of a concrete time.Time value.
+func timeParts(t structure) (sec int64, nsec int64, ok bool) {
+	wall, ok1 := t[0].(uint64)
+	ext, ok2 := t[1].(int64)
+	if !ok1 || !ok2 {
+		return 0, 0, false
+	}
+	nsec = int64(wall & (1<<30 - 1))
+	if wall>>63 != 0 {
+		const wallToInternal = (1884*365 + 1884/4 - 1884/100 + 1884/400) * 86400
+		return int64(wall<<1>>31) + wallToInternal, nsec, true
+	}
+	return ext, nsec, true
+}
+
+func durationBetween(aSec, aNsec, bSec, bNsec int64) int64 {
+	ds := aSec - bSec
+	const maxSec = int64(9223372036)
+	if ds > maxSec-1 {
+		return 1<<63 - 1
+	}
+	if ds < -maxSec+1 {
+		return -1 << 63
+	}
+	return ds*1e9 + (aNsec - bNsec)
 }
 
 func natTimeUntil(fr *frame, fn *ssa.Function, args []value) value {
-	return int64(0)
+	i := fr.i
+	if i.h.clock == "symbolic" {
+		return i.nondet("time.Until", types.Int64)
+	}
+	sec, nsec, ok := timeParts(args[0].(structure))
+	if !ok {
+		panic(engineAbort{"time.Until of a symbolic time under a concrete clock"})
+	}
+	return durationBetween(sec, nsec, fixedNowSec+i.h.clockTicks, 0)
 }
